@@ -745,3 +745,126 @@ Fixpoint int64_ok (v : value) : bool :=
   | VList l => forallb int64_ok l
   | VMap m => forallb (fun kv => int64_ok (snd kv)) m
   end.
+
+(* ---------------------------------------------------------------- branch tracing of the magnet parser
+   The same functions with a list of branch tags threaded through (most recent first). Used only
+   to MEASURE which branches of the model the generated URIs reach (driver option --cov);
+   ProofsTrace.parse_magnet_hash_t_erase: dropping the trace gives parse_magnet_hash. *)
+Definition tg_prefix_bad : N := 1.   Definition tg_loop_error : N := 2.
+Definition tg_no_hash : N := 3.      Definition tg_ok_no_trackers : N := 4.  Definition tg_ok_trackers : N := 5.
+Definition tg_round_end : N := 10.   Definition tg_tag_without_eq : N := 11. Definition tg_xt_no_urn : N := 12.
+Definition tg_xt_b32_ok : N := 13.   Definition tg_xt_b32_fail : N := 14.    Definition tg_xt_raw20 : N := 15.
+Definition tg_xt_hex40_ok : N := 16. Definition tg_xt_hex40_bad : N := 17.   Definition tg_xt_bad_len : N := 18.
+Definition tg_tr : N := 19.          Definition tg_other_tag : N := 20.      Definition tg_url_error : N := 21.
+Definition tg_second_hash : N := 22. (* an xt accepted when a hash was already set *)
+Definition tg_url_end : N := 30.     Definition tg_pct_truncated : N := 31.  Definition tg_pct_bad_hex : N := 32.
+Definition tg_pct_ok : N := 33.      Definition tg_url_amp : N := 34.        Definition tg_url_plain : N := 35.
+Definition tg_url_fault : N := 36.   (* unreachable: ProofsTotal.url_decode_ok *)
+Definition tg_b32_end_ok : N := 40.  Definition tg_b32_end_fail : N := 41.   Definition tg_b32_emit : N := 42.
+Definition tg_b32_no_emit : N := 43. Definition tg_b32_too_many : N := 44.   Definition tg_b32_amp_ok : N := 45.
+Definition tg_b32_amp_fail : N := 46. Definition tg_b32_bad_char : N := 47.
+Definition tg_dec_nul : N := 50.     Definition tg_dec_slash : N := 51.      Definition tg_dec_amp : N := 52.
+Definition tg_dec_pct : N := 53.     Definition tg_dec_eq : N := 54.        Definition tg_dec_high : N := 55.
+
+Definition dec_class (b : N) (tr : list N) : list N :=
+  if b =? 0 then tg_dec_nul :: tr else if b =? ch_slash then tg_dec_slash :: tr
+  else if b =? ch_amp then tg_dec_amp :: tr else if b =? ch_pct then tg_dec_pct :: tr
+  else if b =? ch_eq then tg_dec_eq :: tr else if 127 <? b then tg_dec_high :: tr else tr.
+
+Fixpoint b32_loop_t (pos : bytes) (out : bytes) (shift decoded : N) (tr : list N) : option (bytes * bytes) * list N :=
+  match pos with
+  | [] => let r := b32_finish out shift [] in (r, (match r with Some _ => tg_b32_end_ok | None => tg_b32_end_fail end) :: tr)
+  | c :: pos' =>
+      match b32_val c with
+      | Some v =>
+          match b32_step shift decoded v with
+          | (Some byte, shift', decoded') =>
+              if N.of_nat (length out) =? hash_size then (None, tg_b32_too_many :: tr)
+              else b32_loop_t pos' (byte :: out) shift' decoded' (tg_b32_emit :: tr)
+          | (None, shift', decoded') => b32_loop_t pos' out shift' decoded' (tg_b32_no_emit :: tr)
+          end
+      | None => if c =? ch_amp
+                then let r := b32_finish out shift pos' in
+                     (r, (match r with Some _ => tg_b32_amp_ok | None => tg_b32_amp_fail end) :: tr)
+                else (None, tg_b32_bad_char :: tr)
+      end
+  end.
+
+Fixpoint url_decode_t (pos : bytes) (acc : bytes) (tr : list N) : lres (bytes * bytes) * list N :=
+  match pos with
+  | [] => (LOk (rev acc, []), tg_url_end :: tr)
+  | c :: pos' =>
+      if c =? ch_pct then
+        if N.of_nat (length pos') <? 2 then (LErr EInput, tg_pct_truncated :: tr)
+        else match pos' with
+             | h :: l :: pos'' =>
+                 match hex_val h, hex_val l with
+                 | Some a, Some b => url_decode_t pos'' ((a * 16 + b) mod 256 :: acc) (dec_class ((a * 16 + b) mod 256) (tg_pct_ok :: tr))
+                 | _, _ => (LErr EInput, tg_pct_bad_hex :: tr)
+                 end
+             | _ => (LFault, tg_url_fault :: tr)
+             end
+      else if c =? ch_amp then (LOk (rev acc, pos'), tg_url_amp :: tr)
+      else url_decode_t pos' (c :: acc) (tg_url_plain :: tr)
+  end.
+
+Definition second (hash : option bytes) (tr : list N) : list N :=
+  match hash with Some _ => tg_second_hash :: tr | None => tr end.
+
+Fixpoint magnet_loop_t (fuel : nat) (pos : bytes) (hash : option bytes) (trackers : list bytes) (tr : list N)
+  : lres (option bytes * list bytes) * list N :=
+  match fuel with
+  | O => (LFault, tr)
+  | S f =>
+      match pos with
+      | [] => (LOk (hash, rev trackers), tg_round_end :: tr)
+      | _ =>
+        let '(tag, rest) := span_eq pos [] in
+        match rest with
+        | [] => (LErr EInput, tg_tag_without_eq :: tr)
+        | _ :: pos1 =>
+            let is_xt := bytes_eqb tag tag_xt in
+            if is_xt && ((N.of_nat (length pos1) <? 9) || negb (bytes_eqb (firstn 9 pos1) urn_btih))
+            then (LErr EInput, tg_xt_no_urn :: tr)
+            else
+            let pos2 := if is_xt then skipn 9 pos1 else pos1 in
+            let b := if is_xt then b32_loop_t pos2 [] base_shift 0 tr else (None, tr) in
+            match fst b with
+            | Some (h, next) => magnet_loop_t f next (Some h) trackers (second hash (tg_xt_b32_ok :: snd b))
+            | None =>
+                let tr1 := if is_xt then tg_xt_b32_fail :: snd b else snd b in
+                let u := url_decode_t pos2 [] tr1 in
+                match fst u with
+                | LOk (decoded, next) =>
+                    if is_xt then
+                      if N.of_nat (length decoded) =? hash_size
+                      then magnet_loop_t f next (Some decoded) trackers (second hash (tg_xt_raw20 :: snd u))
+                      else if N.of_nat (length decoded) =? 2 * hash_size then
+                        match from_hex decoded with
+                        | Some h => magnet_loop_t f next (Some h) trackers (second hash (tg_xt_hex40_ok :: snd u))
+                        | None => (LErr EInput, tg_xt_hex40_bad :: snd u)
+                        end
+                      else (LErr EInput, tg_xt_bad_len :: snd u)
+                    else if bytes_eqb tag tag_tr then magnet_loop_t f next hash (decoded :: trackers) (tg_tr :: snd u)
+                    else magnet_loop_t f next hash trackers (tg_other_tag :: snd u)
+                | LErr e => (LErr e, tg_url_error :: snd u)
+                | LFault => (LFault, snd u)
+                end
+            end
+        end
+      end
+  end.
+
+Definition parse_magnet_hash_t (uri : bytes) : lres (bytes * list bytes) * list N :=
+  if negb (bytes_eqb (firstn 8 uri) magnet_prefix) then (LErr EInput, [tg_prefix_bad])
+  else
+    let r := magnet_loop_t (S (length uri)) (skipn 8 uri) None [] [] in
+    match fst r with
+    | LOk (None, _) => (LErr EInput, tg_no_hash :: snd r)
+    | LOk (Some h, ts) => (LOk (h, ts), (match ts with [] => tg_ok_no_trackers | _ => tg_ok_trackers end) :: snd r)
+    | LErr e => (LErr e, tg_loop_error :: snd r)
+    | LFault => (LFault, snd r)
+    end.
+
+(* the distinct branch tags a URI reaches, for the coverage measurement *)
+Definition magnet_branches (uri : bytes) : list N := snd (parse_magnet_hash_t uri).
